@@ -187,6 +187,55 @@ theorem dkz_bound_partial (z L v : ℝ) (dkz : Bool → ℝ → ℝ)
   rw [abs_signMul, abs_of_pos hpos]
   exact hconv p hp
 
+/-! ## D92 — a clause the code violates, shown on the model that mirrors it -/
+
+/-- **negative result (D92)**: there is a collinear problem (`L = 1 mm`, needed period
+`2π/z = 1.0007 mm`) in which *no* admissible period `Λ ∈ (0, L]` reaches `|Δk_z|·L/2 < 1e-3`
+(the best one, `Λ = L`, leaves `2.2e-3`), and yet `optimum_poling_period` returns `Ok` instead of
+`Err`: both seeds `2π/z`, `2π/z + 1 µm` are out of bounds but their reflection `2π/z − 1 µm` is not,
+so the simplex walks inside.  (For an excess above `1 µm` `period_err_of_too_long` proves `Err`.) -/
+theorem period_clamped_witness :
+    ∃ z L : ℝ, 0 < L ∧ 0 < z ∧
+      (∀ Λ, 0 < Λ → Λ ≤ L → 1e-3 ≤ |z - 2 * π / Λ| * L / 2) ∧
+      ∃ v, optimumPolingPeriod z (collinearCost z) L = .ok (Period.finite v) ∧ |v| ≤ L := by
+  have hpi := Real.pi_gt_three
+  have hpi0 : (π : ℝ) ≠ 0 := Real.pi_ne_zero
+  refine ⟨2 * π / 1.0007e-3, 1e-3, by norm_num, by positivity, ?_, ?_⟩
+  · intro Λ h0 h1
+    have e1 : 2 * π / (1e-3 : ℝ) ≤ 2 * π / Λ :=
+      div_le_div_of_nonneg_left (by positivity) h0 h1
+    have e2 : 2 * π / (1.0007e-3 : ℝ) = 2 * π * (10000000 / 10007) := by norm_num; ring
+    have e3 : 2 * π / (1e-3 : ℝ) = 2 * π * 1000 := by norm_num; ring
+    have hneg : 2 * π / (1.0007e-3 : ℝ) - 2 * π / Λ ≤ 0 := by rw [e2]; rw [e3] at e1; nlinarith
+    rw [abs_of_nonpos hneg, e2]
+    rw [e3] at e1
+    norm_num
+    nlinarith
+  · have hz : (2 * π / (1.0007e-3 : ℝ)) ≠ 0 := by positivity
+    have hg : |2 * π / (2 * π / (1.0007e-3 : ℝ))| = 1.0007e-3 := by
+      rw [abs_of_pos (by positivity)]; field_simp
+    have hs : computeSign (2 * π / (1.0007e-3 : ℝ)) = false := by
+      rw [Bool.eq_false_iff]
+      intro h
+      have := (computeSign_iff _).mp h
+      have : (0 : ℝ) < 2 * π / 1.0007e-3 := by positivity
+      linarith
+    have hmin := minPositive_le_micro
+    obtain ⟨x, hx, hx0, hx1⟩ := run_in_bounds_of_reflect
+      (collinearCost (2 * π / (1.0007e-3 : ℝ)) false) 1.0007e-3 1e-6 minPositive 1e-3 1e-12 999
+      (by norm_num)
+      (fun x hx _ => by rw [collinearCost_eq false (minPositive_pos.trans_le hx)]; simp)
+      (by norm_num) (by norm_num; linarith) (by norm_num)
+      ⟨_, collinearCost_eq false (by norm_num)⟩
+    refine ⟨signMul false x, ?_, ?_⟩
+    · rw [optimumPolingPeriod_of_ne hz, hg, hs]
+      rw [show (999 + 1 : Nat) = 1000 from rfl] at hx
+      rw [hx]
+      have hnot : ¬ ((1e-3 : ℝ) < x ∨ x < minPositive) := by
+        rw [not_or, not_lt, not_lt]; exact ⟨hx1, hx0⟩
+      simp only [hnot, if_false]
+    · rw [abs_signMul, abs_of_pos (minPositive_pos.trans_le hx0)]; exact hx1
+
 /-! ## non-vacuity -/
 
 /-- `collinear_period` applies to KTP-like numbers: `z = 1.36e5 /m` (Λ = 46.2 µm), `L = 2 mm` -/
